@@ -61,8 +61,12 @@ def _java(extra_props=()):
 
 def sany(spec_path, timeout=120):
     dirs = _module_dirs(spec_path)
-    cmd = _java(["-DTLA-Library=" + os.pathsep.join(dirs)]) + ["-cp", JAR_CP, "tla2sany.SANY", spec_path]
-    p = subprocess.run(cmd, capture_output=True, text=True, timeout=timeout, cwd=os.path.dirname(spec_path))
+    jtmp = tempfile.mkdtemp(prefix="verif-sany-")       # (the tools leave an empty tlc-<n> directory in java.io.tmpdir)
+    try:
+        cmd = _java(["-DTLA-Library=" + os.pathsep.join(dirs), "-Djava.io.tmpdir=" + jtmp]) + ["-cp", JAR_CP, "tla2sany.SANY", spec_path]
+        p = subprocess.run(cmd, capture_output=True, text=True, timeout=timeout, cwd=os.path.dirname(spec_path))
+    finally:
+        shutil.rmtree(jtmp, ignore_errors=True)
     out = p.stdout + p.stderr
     if p.returncode != 0 or "*** Errors" in out or "Fatal errors" in out or "Could not find module" in out:
         raise MachineryError("SANY rejects %s:\n%s" % (spec_path, out[-3000:]))
